@@ -63,6 +63,8 @@ def config_case(draw, tier="quick", connect=True):
             "followup": None, "connect": connect, "reorder": draw(st.sampled_from([None, None, None, "rtx-last", "reverse", "rotate", "fb-no-pli", "fb-no-nack", "fb-none", "fb-first"]))}
     if draw(st.booleans()):
         case["followup"] = {"offer_by": draw(st.integers(0, 1)), "add_to": draw(st.integers(0, 1)), "item": draw(item(common))}
+    # a quarter of the cases over a path whose datagram send suspends (TURN relay)
+    case["yield_send"] = draw(st.sampled_from([False, False, False, True]))
     return case
 
 
@@ -380,7 +382,7 @@ class Scenario:
 def run_config(case: dict) -> Outcome:
     sc = Scenario(case)
     try:
-        run_pc_sim(sc.main, max_iterations=1_500_000)
+        run_pc_sim(sc.main, max_iterations=1_500_000, yield_send=bool(case.get("yield_send")))
     except vloop.SimAbort as exc:
         return Outcome(f"simulation aborted: {exc!r}", "sim-abort:" + type(exc).__name__, True, tuple(sorted(sc.classes)))
     classes = set(sc.classes)
@@ -394,6 +396,8 @@ def run_config(case: dict) -> Outcome:
     if any(i["t"] == "dc" for i in off + ans) or case["offerer"].get("always_dc"):
         classes.add("datachannel")
     classes.add("bundle=" + case["offerer"]["bundle"] + "/" + case["answerer"]["bundle"])
+    if case.get("yield_send"):
+        classes.add("yielding-send")
     nt = bool(classes & {"answerer-precreated", "codec-preferences", "asymmetric-directions", "followup"})
     cl = tuple(sorted(classes))
     if sc.problem:
